@@ -20,6 +20,7 @@ import (
 	"strconv"
 	"strings"
 	"sync"
+	"sync/atomic"
 	"time"
 
 	"verif/harness"
@@ -489,6 +490,12 @@ func runSegment(spec *Spec, b *built, fl string, w, seg int, budget time.Duratio
 		if mk.Tainted {
 			return nil, &[2]int{mk.Run, mk.Sub}, ""
 		}
+		if strings.Contains(out.String(), "synctest channel from outside bubble") || strings.Contains(out.String(), "synctest timer from outside bubble") {
+			// a limit of testing/synctest, not a finding and not our trouble:
+			// skip the plan (counted) and go on in a fresh process
+			synctestSkips.Add(1)
+			return nil, &[2]int{mk.Run, mk.Sub + 1}, ""
+		}
 		return nil, nil, fmt.Sprintf("worker %d (%s): died without a result\n%s", w, fl, tail(out.String(), 4000))
 	}
 	select {
@@ -518,6 +525,10 @@ func runSegment(spec *Spec, b *built, fl string, w, seg int, budget time.Duratio
 	return &r, nil, ""
 }
 
+// synctestSkips counts plans abandoned because the Go runtime aborted the
+// driver over a cross-bubble channel or timer (reported in the evidence).
+var synctestSkips atomic.Int64
+
 var (
 	crashMu    sync.Mutex
 	crashViols []harness.FoundViol
@@ -544,6 +555,11 @@ func crashViolation(spec *Spec, b *built, fl string, w int, output string) *harn
 		}
 	}
 	if fatal == "" {
+		return nil
+	}
+	if strings.Contains(fatal, "synctest") {
+		// a limit of testing/synctest (an object made in one bubble used in
+		// another), never a statement about the code under test
 		return nil
 	}
 	attributable := false
@@ -712,6 +728,9 @@ func runCheck(spec *Spec, tier string) int {
 		if len(samples) < 3 {
 			samples = append(samples, r.Samples...)
 		}
+	}
+	if n := synctestSkips.Load(); n > 0 {
+		ev.Probes["plans_skipped_after_synctest_cross_bubble_abort"] = int(n)
 	}
 	viols = append(viols, crashViols...)
 	distinct := unionFps(fpFiles)
